@@ -641,7 +641,7 @@ fn run_shard(ctx: &ShardCtx, acc: &mut Acc) {
         Tier::Thorough => (5, 6, 6),
     };
     let mut found = vec![];
-    {
+    if !ctx.fuzzing() {
         let mut st = Dfs {
             acc,
             ctx,
